@@ -20,6 +20,13 @@
 (*                      fetch / accounts lookup) while run 2 - another duty - runs from start   *)
 (*                      to end, then run 1 goes on, later runs follow one after the other       *)
 (*                      (state carried); hold = "any": the runs interleave freely               *)
+(*   ScenMode = "shape" C01: THE SHAPE OF A DUTY, enumerated exhaustively: an optional           *)
+(*                      preparatory run that makes any subset of the validators "already        *)
+(*                      attested", then ONE duty out of every sequence of entries over the      *)
+(*                      validators - a validator listed once, twice, three times, next to each  *)
+(*                      other or with another in between, repeated entries in the same or in    *)
+(*                      another committee - with any subset of the claimed validators without   *)
+(*                      account, any subset unsigned, or the signer failing                     *)
 EXTENDS Attester, Json
 
 CONSTANTS ScenMode, ScenLen, ScenVals, ScenMaxLen, ScenSlots, ScenComms, ScenPrepSlot
@@ -31,7 +38,10 @@ NC == Cardinality(ScenComms)
 SizeTab(c) == 6 + 2 * c
 Sizes == [i \in 1..NC |-> <<i - 1, SizeTab(i - 1)>>]
 
-InjSeqs == {vs \in UNION {[1..n -> ScenVals] : n \in 1..ScenMaxLen} : \A i, j \in DOMAIN vs : vs[i] = vs[j] => i = j}
+AnySeqs == UNION {[1..n -> ScenVals] : n \in 1..ScenMaxLen}
+InjSeqs == {vs \in AnySeqs : \A i, j \in DOMAIN vs : vs[i] = vs[j] => i = j}
+\* sequences that list some validator more than once
+RepSeqs == AnySeqs \ InjSeqs
 
 \* a small family of committee / position assignments (k, j), or every assignment in c04 mode
 MkDuty(s, vs, k, j) ==
@@ -40,6 +50,13 @@ MkDuty(s, vs, k, j) ==
      pos |-> [i \in DOMAIN vs |-> (vs[i] * 3 + j + s) % 5],
      sizes |-> Sizes]
 HistDuties == {MkDuty(s, vs, k, j) : s \in ScenSlots, vs \in InjSeqs, k \in 1..2, j \in 0..(NC - 1)}
+\* ... with the committee and the position following the ENTRY by m per place (m = 0: a validator listed again
+\* comes with the same committee and position, m > 0: with other ones)
+MkDutyE(s, vs, k, j, m) ==
+    [slot |-> s, vals |-> vs,
+     comm |-> [i \in DOMAIN vs |-> (vs[i] * k + j + m * i) % NC],
+     pos |-> [i \in DOMAIN vs |-> (vs[i] * 3 + j + s + m * i) % 5],
+     sizes |-> Sizes]
 
 TestDuties ==
     {[slot |-> s, vals |-> vs, comm |-> cs, pos |-> [i \in DOMAIN vs |-> (vs[i] * 3 + s) % 5], sizes |-> Sizes]
@@ -72,12 +89,21 @@ Internal(r) ==
 \* one randomly drawn duty per step (TLC simulation; RandomElement follows -seed), so that the many
 \* possible duties do not outweigh the other steps
 \* (the argument keeps TLC from caching the drawn value as a constant)
-RandomDuty(x) == MkDuty(RandomElement(IF x >= 0 THEN ScenSlots ELSE {}), RandomElement(InjSeqs), RandomElement(1..2), RandomElement(0..(NC - 1)))
+\* every fourth duty lists a validator more than once (same or other committee for the repeated entry)
+RandomDuty(x) == IF RandomElement(IF x >= 0 THEN 1..4 ELSE {}) = 1
+                 THEN MkDutyE(RandomElement(ScenSlots), RandomElement(RepSeqs), RandomElement(1..2), RandomElement(0..(NC - 1)), RandomElement(0..1))
+                 ELSE MkDuty(RandomElement(IF x >= 0 THEN ScenSlots ELSE {}), RandomElement(InjSeqs), RandomElement(1..2), RandomElement(0..(NC - 1)))
 \* ... or a duty already delivered (re-delivery after a reorg, retry), possibly moved to another slot
 Redeliver(x) == LET S == {run[q].duty : q \in Started} IN
                 IF S = {} THEN RandomDuty(x)
                 ELSE LET d == RandomElement(S) IN
                      IF RandomElement(1..2) = 1 THEN d ELSE [d EXCEPT !.slot = RandomElement(IF x >= 0 THEN ScenSlots ELSE {})]
+
+\* what an interface fails with (the attester treats them alike; the fakes return the real error values):
+\* taken in turn along the history, so that the weight of the failure branches stays what it was
+ErrKind == <<"other", "deadline", "canceled">>[(Len(hist) % 3) + 1]
+\* how a response is incomplete: 1 = no data, 2 = no source checkpoint, 3 = no target checkpoint
+IncKind(a) == IF a = Incomplete THEN (Len(hist) % 3) + 1 ELSE 0
 
 HistNext ==
     \/ \E r \in RunIds, n \in 1..3 :
@@ -86,24 +112,54 @@ HistNext ==
                  Deliver(r, d) /\ H([ev |-> "Deliver", run |-> r, duty |-> run'[r].duty]) /\ UNCHANGED succ
     \/ \E r \in RunIds :
         \/ \E a \in DataChoices(run[r].duty) \cup {GoodData(run[r].duty, k) : k \in Roots} :
-                Fetch(r, a) /\ H([ev |-> "Fetch", run |-> r, err |-> FALSE, data |-> a]) /\ UNCHANGED succ
+                Fetch(r, a) /\ H([ev |-> "Fetch", run |-> r, err |-> FALSE, data |-> a, inc |-> IncKind(a)]) /\ UNCHANGED succ
         \/ \E n \in 1..6 : Fetch(r, GoodData(run[r].duty, 1)) /\ H([ev |-> "Fetch", run |-> r, err |-> FALSE, data |-> GoodData(run[r].duty, 1)]) /\ UNCHANGED succ
-        \/ FetchErr(r) /\ H([ev |-> "Fetch", run |-> r, err |-> TRUE]) /\ UNCHANGED succ
+        \/ FetchErr(r) /\ H([ev |-> "Fetch", run |-> r, err |-> TRUE, kind |-> ErrKind]) /\ UNCHANGED succ
         \/ \E A \in SUBSET run[r].claimed :
                 Accounts(r, A) /\ H([ev |-> "Accounts", run |-> r, err |-> FALSE, accts |-> A]) /\ UNCHANGED succ
         \/ \E n \in 1..4 : Accounts(r, run[r].claimed) /\ H([ev |-> "Accounts", run |-> r, err |-> FALSE, accts |-> run[r].claimed]) /\ UNCHANGED succ
-        \/ AccountsErr(r) /\ H([ev |-> "Accounts", run |-> r, err |-> TRUE]) /\ UNCHANGED succ
+        \/ AccountsErr(r) /\ H([ev |-> "Accounts", run |-> r, err |-> TRUE, kind |-> ErrKind]) /\ UNCHANGED succ
         \/ SignCall(r, ExpectedReq(run[r]), SignData(run[r])) /\ H([ev |-> "Sign", run |-> r]) /\ UNCHANGED succ
         \/ \E Z \in SUBSET ReqVals(run[r].req) :
                 SignRet(r, Z, TRUE) /\ H([ev |-> "SignRet", run |-> r, err |-> FALSE, zero |-> Z]) /\ UNCHANGED succ
         \/ \E n \in 1..4 : SignRet(r, {}, TRUE) /\ H([ev |-> "SignRet", run |-> r, err |-> FALSE, zero |-> {}]) /\ UNCHANGED succ
-        \/ SignRet(r, {}, FALSE) /\ H([ev |-> "SignRet", run |-> r, err |-> TRUE, zero |-> {}]) /\ UNCHANGED succ
+        \/ SignRet(r, {}, FALSE) /\ H([ev |-> "SignRet", run |-> r, err |-> TRUE, zero |-> {}, kind |-> ErrKind]) /\ UNCHANGED succ
         \/ SubmitCall(r) /\ H([ev |-> "Submit", run |-> r]) /\ UNCHANGED succ
         \/ \E n \in 1..4 :
                 LET ok == n > 1 IN
-                SubmitRet(r, ok) /\ H([ev |-> "SubmitRet", run |-> r, err |-> ~ok])
+                SubmitRet(r, ok) /\ H([ev |-> "SubmitRet", run |-> r, err |-> ~ok, kind |-> IF ok THEN "" ELSE ErrKind])
                 /\ succ' = IF ok THEN succ \cup {r} ELSE succ
         \/ Internal(r) /\ UNCHANGED <<hist, succ>>
+
+(* ---- shape: every shape of ONE duty, on a fresh or a pre-marked instance (exhaustive) ---- *)
+\* every sequence of entries; the committee of an entry: by the validator or by the entry (variants k), the
+\* position in the committee by the entry (so that a repeated validator's entries differ there too)
+ShapeDuties ==
+    {[slot |-> s, vals |-> vs,
+      comm |-> [i \in DOMAIN vs |-> IF k = 0 THEN vs[i] % NC ELSE (vs[i] + i) % NC],
+      pos |-> [i \in DOMAIN vs |-> (vs[i] * 3 + i) % 5], sizes |-> Sizes]
+        : s \in ScenSlots, vs \in AnySeqs, k \in 0..1}
+
+\* run 1 = preparatory run (optional, everything succeeds), run 2 = the duty under study
+ShapeNext ==
+    \/ /\ run[1].pc = "idle" /\ run[2].pc = "idle"
+       /\ \E d \in PrepDuties : Deliver(1, d) /\ H([ev |-> "Deliver", run |-> 1, duty |-> d]) /\ UNCHANGED succ
+    \/ /\ run[1].pc \in {"idle", "done"} /\ run[2].pc = "idle"
+       /\ \E d \in ShapeDuties : Deliver(2, d) /\ H([ev |-> "Deliver", run |-> 2, duty |-> d]) /\ UNCHANGED succ
+    \/ /\ Fetch(1, GoodData(run[1].duty, 1)) /\ H([ev |-> "Fetch", run |-> 1, err |-> FALSE, data |-> GoodData(run[1].duty, 1)]) /\ UNCHANGED succ
+    \/ /\ Accounts(1, run[1].claimed) /\ H([ev |-> "Accounts", run |-> 1, err |-> FALSE, accts |-> run[1].claimed]) /\ UNCHANGED succ
+    \/ \E r \in {1, 2} : SignCall(r, ExpectedReq(run[r]), SignData(run[r])) /\ H([ev |-> "Sign", run |-> r]) /\ UNCHANGED succ
+    \/ \E r \in {1, 2} : SubmitCall(r) /\ H([ev |-> "Submit", run |-> r]) /\ UNCHANGED succ
+    \/ /\ SignRet(1, {}, TRUE) /\ H([ev |-> "SignRet", run |-> 1, err |-> FALSE, zero |-> {}]) /\ UNCHANGED succ
+    \/ /\ SubmitRet(1, TRUE) /\ H([ev |-> "SubmitRet", run |-> 1, err |-> FALSE]) /\ succ' = succ \cup {1}
+    \/ /\ Fetch(2, GoodData(run[2].duty, 1)) /\ H([ev |-> "Fetch", run |-> 2, err |-> FALSE, data |-> GoodData(run[2].duty, 1)]) /\ UNCHANGED succ
+    \/ \E A \in SUBSET run[2].claimed :
+            Accounts(2, A) /\ H([ev |-> "Accounts", run |-> 2, err |-> FALSE, accts |-> A]) /\ UNCHANGED succ
+    \/ \E Z \in SUBSET ReqVals(run[2].req) :
+            SignRet(2, Z, TRUE) /\ H([ev |-> "SignRet", run |-> 2, err |-> FALSE, zero |-> Z]) /\ UNCHANGED succ
+    \/ /\ SignRet(2, {}, FALSE) /\ H([ev |-> "SignRet", run |-> 2, err |-> TRUE, zero |-> {}, kind |-> "other"]) /\ UNCHANGED succ
+    \/ /\ SubmitRet(2, TRUE) /\ H([ev |-> "SubmitRet", run |-> 2, err |-> FALSE]) /\ succ' = succ \cup {2}
+    \/ \E r \in RunIds : Internal(r) /\ UNCHANGED <<hist, succ>>
 
 \* run 1 = preparatory run (optional, everything succeeds), run 2 = duty under test
 C04Next ==
@@ -189,7 +245,8 @@ SNext ==
     /\ Len(hist) <= ScenLen
     /\ IF Marking # {}
        THEN \E r \in Marking, claim \in BOOLEAN : MarkOne(r, claim) /\ UNCHANGED <<hist, succ>>
-       ELSE IF ScenMode = "hist" THEN HistNext ELSE IF ScenMode = "c04ovl" THEN OvlNext ELSE C04Next
+       ELSE IF ScenMode = "hist" THEN HistNext ELSE IF ScenMode = "c04ovl" THEN OvlNext
+            ELSE IF ScenMode = "shape" THEN ShapeNext ELSE C04Next
 
 SSpec == SInit /\ [][SNext]_svars
 
